@@ -424,6 +424,9 @@ class Taint:
         if b.kind == 'obj':
             key = 'self.' + e.attr
             return (b.env or {}).get(e.attr, CLEAN())
+        if e.attr == 'dtypes' and b.frame and b.t:
+            # the dtypes pandas INFERRED for the private table: one record with an empty cell turns an integer column into a float column
+            return AV(True, why='the column dtypes inferred from the private records (`%s`)' % U(e))
         if e.attr in ('dtype', 'dtypes'):
             return CLEAN()            # the schema is public
         if e.attr == 'columns' and b.frame:
